@@ -189,8 +189,23 @@ fn check_faulty_write(conf: &AisleConf, golden: &[u8], faults: &[WriteFault], ou
     }
     let res = match res {
         Ok(r) => r,
-        Err(_) => {
-            out.push(v("hard-fault-mishandled", format!("aisle::write panicked under sink faults {faults:?}")));
+        Err(p) => {
+            let _ = crate::sim::take_last_panic();
+            let injected = p.downcast_ref::<String>().map(|s| s.as_str() == crate::sim::INJECTED).unwrap_or(false) || p.downcast_ref::<&str>().map(|s| *s == crate::sim::INJECTED).unwrap_or(false);
+            if !injected {
+                out.push(v("hard-fault-mishandled", format!("aisle::write panicked under sink faults {faults:?}")));
+                return;
+            }
+            // the SINK panicked and the caller caught it: what reached the sink is a prefix, and a
+            // write of the same value afterwards gives the fault-free output (nothing the writer
+            // held - a lock, a scratch buffer - may be left in the way)
+            if !golden.starts_with(&w.accepted) {
+                out.push(v("hard-fault-mishandled", format!("the sink panicked at a write call; it holds {:?}, which is not a prefix of the fault-free output", String::from_utf8_lossy(&w.accepted))));
+            }
+            match catch_unwind(AssertUnwindSafe(|| write_golden(conf))) {
+                Ok(Ok((g2, _))) if g2 == golden => {}
+                other => out.push(v("hard-fault-mishandled", format!("write after a write whose sink panicked differs from the fault-free output: {:?}", other.map(|r| r.map(|x| x.0.len())).map_err(|_| "panic")))),
+            }
             return;
         }
     };
@@ -596,7 +611,7 @@ fn gen_write_faults(r: &mut Rng, calls: u32) -> Vec<WriteFault> {
             }
             7 if !hard => {
                 hard = true;
-                WriteFault::Zero { call }
+                if r.chance(1, 3) { WriteFault::Panic { call } } else { WriteFault::Zero { call } }
             }
             _ => WriteFault::Short { call, n: 1 },
         });
@@ -753,6 +768,7 @@ pub fn enumerate_write_faults(text: &str) -> Vec<AisleScenario> {
             v.push(mk(with_mode(vec![WriteFault::Zero { call: c }])));
             v.push(mk(with_mode(vec![WriteFault::IoErr { call: c, errkind: "StorageFull".into() }])));
             v.push(mk(with_mode(vec![WriteFault::Eintr { call: c }])));
+            v.push(mk(with_mode(vec![WriteFault::Panic { call: c }])));
             let len = rec.lens.get(c as usize).copied().unwrap_or(1);
             for n in 1..len {
                 v.push(mk(with_mode(vec![WriteFault::Short { call: c, n: n as u32 }])));
